@@ -201,7 +201,6 @@ def run_fileloader(case, rec, extra):
     d = Path(tempfile.mkdtemp(prefix='c13-'))
     saved_path = list(sys.path)
     saved_known = set(ml._known_dirs)
-    real_load = fl.load_pipeline_from_file
     try:
         for op in ops:
             if op[0] != 'get':
@@ -210,24 +209,30 @@ def run_fileloader(case, rec, extra):
             pdir = d / parent
             pdir.mkdir(parents=True, exist_ok=True)
             f = pdir / f'{name}.yaml'
-            if ok:
+            if ok == 'bad':
+                f.write_text('- this\n- pipeline\n- is\n- a list\n')     # parses, but is no mapping
+            elif ok:
                 f.write_text(f'steps: []\nmarker: {[parent, name]!r}\n')
             else:
                 f.write_text('steps: [\n  - unclosed: {\n')   # creator raises while parsing
 
-        def counting_load(path):
+        # the creator of the Loader's pipeline cache is Loader._load_pipeline, which calls this:
+        def counting_gpd(pipeline_name, parent):
+            from collections.abc import Mapping
             rec.ev('call', 0, rec.cur)
             try:
-                o = real_load(path)
+                o = fl.get_pipeline_definition(pipeline_name, parent)
             except Exception:
                 rec.ev('failed', 0, rec.cur)
                 raise
+            if not isinstance(o.pipeline, Mapping):
+                rec.ev('failed', 0, rec.cur)      # malformed payload: _load_pipeline must refuse it
+                return o
             rec.objs.append(o)
             rec.ev('created', 0, rec.cur, len(rec.objs) - 1)
             return o
-        fl.load_pipeline_from_file = counting_load
         file_cache.clear()
-        loader = Loader('pypyr.loaders.file', fl.get_pipeline_definition)
+        loader = Loader('pypyr.loaders.file', counting_gpd)
         resolved = []
 
         def do_get(parent, name):
@@ -244,7 +249,6 @@ def run_fileloader(case, rec, extra):
         _drive(rec, ops, do_get, do_clear)
         extra['resolved'] = resolved
     finally:
-        fl.load_pipeline_from_file = real_load
         file_cache.clear()
         sys.path[:] = saved_path
         ml._known_dirs.clear()
